@@ -138,7 +138,7 @@ func judgeCase(rec *caseRecord, sum *jSummary) {
 	// hostile inputs (C14's input language: raw annotation properties, arbitrary validator tags, unsupported type shapes) carry
 	// expectations for termination and closure only
 	scopedCase(rec.Case) // controllers in files no glob matches are not part of the project gleece is asked about
-	hostile := false
+	hostile, illTyped := false, false
 	for _, c := range rec.Case.Ctrls {
 		for _, s := range c.Sec {
 			hostile = hostile || s.RawProps != ""
@@ -149,13 +149,19 @@ func judgeCase(rec *caseRecord, sum *jSummary) {
 			hostile = hostile || s.RawProps != ""
 		}
 		for _, a := range m.Anns {
-			hostile = hostile || a.RawProps != ""
+			// (a perturbation of the C10/C18 space may carry an ill-TYPED property - "{name: 5}" - as written text)
+			hostile = hostile || (a.RawProps != "" && m.Ptag == "")
+			illTyped = illTyped || (a.RawProps != "" && m.Ptag != "")
 		}
 	}
 	for _, t := range rec.Case.Types {
 		hostile = hostile || t.Name == "Hostile"
 	}
-	relevant := func(prop string) bool { return !hostile || prop == "C14" || prop == "C08" }
+	// (an ill-typed property written by a perturbation: the diagnostics it draws are judged - C18 - while the verdict itself is not,
+	//  the link validator looks at the properties of @Path only)
+	relevant := func(prop string) bool {
+		return (!hostile && !illTyped) || prop == "C14" || prop == "C08" || (illTyped && !hostile && prop == "C18")
+	}
 	startIdx := len(sum.Findings)
 	defer func() {
 		kept := sum.Findings[:startIdx]
